@@ -139,8 +139,9 @@ def parallel_any_order(o0: int, o1: int, o2: int, o3: int, o4: int, o5: int, mx:
         return hx.end(hx.fail("pool not created with the requested process count", got=FakePool.created))
     if len(res) != len(runs):
         return hx.end(hx.fail("a result was lost or duplicated", got=len(res), exp=len(runs)))
-    if res != exp:
-        return hx.end(hx.fail("results mixed up", got=res, exp=exp))
+    # with several processes the order of the results is left open by the property: compare as multisets
+    if sorted(res) != sorted(exp):
+        return hx.end(hx.fail("results lost, duplicated or mixed up", got=res, exp=exp))
     for i in range(len(res)):
         for j in range(i + 1, len(res)):
             if res[i] is res[j]:
